@@ -9,6 +9,7 @@ import os
 import random
 import re
 import shutil
+import subprocess
 
 import eng_seq
 import eng_sync as es
@@ -116,7 +117,6 @@ def run():
     s2 = s2.replace('Cas(l.fcur, l.fcw, W(l.fcw.size, l.node), "acqrel", "rlx")', 'Cas(l.fcur, l.fcw, W(l.fcw.size, l.node), "rlx", "rlx")')
     assert s2 != s
     # run_tlc copies spec/*.tla into the work dir: run TLC by hand on the modified copy
-    import subprocess
     open(p, "w").write(s2)
     q = subprocess.run(["java", "-XX:+UseParallelGC", "-cp", rv.TLC_JAR + ":/opt/veriftools/tla/CommunityModules-deps.jar", "tlc2.TLC",
                         "-workers", "4", "-metadir", os.path.join(mwd, "md"), "-cleanup", "-noGenerateSpecTE", "-config", c, m],
@@ -125,5 +125,45 @@ def run():
     print("selftest 3/weakened: link CAS and node store relaxed in the micro-op table -> NoRace %s" % ("VIOLATED (as expected)" if hit else "NOT violated"))
     ok &= hit
     shutil.rmtree(mwd, ignore_errors=True)
+
+    # 4. the flush family: a dropped msync record and a mutated decision
+    try:
+        import check_flush
+        check_flush.run_real("quick", "dev")
+        mf = os.path.join(rv.WORK, "flush-dev", "merged.ndjson")
+        evs = [json.loads(l) for l in open(mf)]
+        where = None
+        for i, e in enumerate(evs):
+            if e.get("ev") == "call" and len(e.get("ms", [])) == 2 and e["ms"][1][0] >= e["ms"][0][0] + e["ms"][0][1]:
+                e["ms"] = e["ms"][1:]          # the header's msync is lost
+                where = i + 1
+                break
+        cf = os.path.join(wd, "flush-corrupt.ndjson")
+        rv.write_ndjson(cf, evs)
+        cfg_text = "SPECIFICATION Spec\nCONSTANT P = %d\nPOSTCONDITION Post\nCHECK_DEADLOCK FALSE\n" % os.sysconf("SC_PAGE_SIZE")
+        rf = rv.validate_trace(cf, "TraceFlush.tla", "TraceFlush.cfg", "selftest-flush", parts=1, cfg_text=cfg_text)
+        hit = any(pred == "CoversWhatWasAsked" and gl == where for (_, pred, gl, _) in rf["viol"])
+        print("selftest 4/trace: header msync removed from the record at line %s -> CoversWhatWasAsked %s" % (where, "REPORTED" if hit else "MISSED"))
+        ok &= hit
+        fwd = os.path.join(rv.WORK, "mc", "selftest-flush")
+        shutil.rmtree(fwd, ignore_errors=True)
+        rv.ensure_dir(fwd)
+        for f in os.listdir(rv.SPEC):
+            if f.endswith(".tla") or f == "MCFlush.cfg":
+                shutil.copy(os.path.join(rv.SPEC, f), os.path.join(fwd, f))
+        fp = os.path.join(fwd, "Flush.tla")
+        fs = open(fp).read()
+        fs2 = fs.replace("ELSE IF off <= hoff /\\ hend <= fend THEN Ok(<<Req(off, len)>>)", "ELSE IF off <= hoff THEN Ok(<<Req(off, len)>>)")
+        assert fs2 != fs
+        open(fp, "w").write(fs2)
+        q = subprocess.run(["java", "-XX:+UseParallelGC", "-cp", rv.TLC_JAR + ":/opt/veriftools/tla/CommunityModules-deps.jar", "tlc2.TLC",
+                            "-workers", "4", "-metadir", os.path.join(fwd, "md"), "-cleanup", "-noGenerateSpecTE", "-config", "MCFlush.cfg", "MCFlush.tla"],
+                           cwd=fwd, stdout=subprocess.PIPE, stderr=subprocess.STDOUT, text=True, timeout=600)
+        hit = "Invariant CoversWhatWasAsked is violated" in q.stdout
+        print("selftest 4/model: 'range contains the header' test weakened in Flush.tla -> CoversWhatWasAsked %s" % ("VIOLATED (as expected)" if hit else "NOT violated"))
+        ok &= hit
+        shutil.rmtree(fwd, ignore_errors=True)
+    except rv.ToolError as e:
+        print("selftest 4: skipped (%s)" % str(e)[:120])
     print("SELFTEST %s" % ("PASSED" if ok else "FAILED"))
     return 0 if ok else 1
